@@ -93,16 +93,17 @@ Theorem C14_prefix_without_trailer_rejected : forall (M : Type) (decode : list b
   ~ valid_trailer M decode p -> exists e, open_file M decode has_key p = OpenErr e.
 Proof. exact prefix_without_trailer_rejected. Qed.
 
-(** A column chunk whose source ends before the chunk does (anywhere, also
-    exactly between two pages) never ends with a plain io.EOF; a complete chunk
-    is read to its end. *)
+(** A column chunk (pages = (header length, body length)) whose source ends
+    before the chunk does (anywhere: inside a header or a body, exactly between
+    two pages, exactly between a header and its body) never ends with a plain
+    io.EOF; a complete chunk is read to its end. *)
 Theorem C14_chunk_early_end_reported : forall pages size avail,
   sumN pages = size -> avail < size ->
   snd (read_pages true size avail 0 pages) = PUnexpected.
 Proof. intros. apply chunk_early_end_reported; lia. Qed.
 
 Theorem C14_chunk_complete_read : forall pages size avail,
-  sumN pages = size -> size <= avail -> (forall pl, In pl pages -> 0 < pl) ->
+  sumN pages = size -> size <= avail -> (forall h b, In (h, b) pages -> 0 < h) ->
   read_pages true size avail 0 pages = (length pages, PEnd).
 Proof. intros. apply chunk_complete_read; auto. Qed.
 
@@ -224,14 +225,24 @@ Example C14_ex_lenient_wrapper_masks :
   readerat_ok 10 (4, REOF) /\ snd (readat_wrap_lenient 10 (4, REOF)) = RNone.
 Proof. repeat split; cbn; try lia; discriminate. Qed.
 
-(* three pages of 10 bytes, the source ends after the second *)
-Example C14_ex_chunk_cut_between_pages : read_pages true 30 20 0 [10; 10; 10] = (2%nat, PUnexpected).
+(* three pages of 3 + 7 bytes, the source ends after the second page; after the
+   header of the third *)
+Example C14_ex_chunk_cut_between_pages : read_pages true 30 20 0 [(3, 7); (3, 7); (3, 7)] = (2%nat, PUnexpected).
 Proof. vm_compute. reflexivity. Qed.
 
-(** FilePages.ReadPage of the pinned tree (before commit fc42a8f) took the
-    io.EOF met at a page boundary for the end of the chunk: two of three pages
+Example C14_ex_chunk_cut_after_header : read_pages true 30 23 0 [(3, 7); (3, 7); (3, 7)] = (2%nat, PUnexpected).
+Proof. vm_compute. reflexivity. Qed.
+
+Example C14_ex_chunk_complete : read_pages true 30 30 0 [(3, 7); (3, 7); (3, 7)] = (3%nat, PEnd).
+Proof. vm_compute. reflexivity. Qed.
+
+(** FilePages.ReadPage of the pinned tree (before commit fc42a8f and its
+    follow-up) took the io.EOF met at a page boundary, and the one met between
+    a page header and its body, for the end of the chunk: two of three pages
     and a plain end. *)
 Theorem C14_pinned_page_boundary_eof_refuted :
-  exists pages size avail,
-    sumN pages = size /\ avail < size /\ snd (read_pages false size avail 0 pages) <> PUnexpected.
-Proof. exists [10; 10; 10], 30, 20. vm_compute. repeat split; discriminate. Qed.
+  exists pages size avail1 avail2,
+    sumN pages = size /\ avail1 < size /\ avail2 < size /\
+    snd (read_pages false size avail1 0 pages) <> PUnexpected /\
+    snd (read_pages false size avail2 0 pages) <> PUnexpected.
+Proof. exists [(3, 7); (3, 7); (3, 7)], 30, 20, 23. vm_compute. repeat split; discriminate. Qed.
